@@ -136,9 +136,9 @@ Definition spec_plain (p : pool) (ct : ctx_table) (m : mask) (st : lstate) (a : 
 Definition spec_plains (p : pool) (ct : ctx_table) (m : mask) (l : list pattr) (st : lstate) : lstate :=
   fold_left (spec_plain p ct m) l st.
 
-Definition spec_code (p : pool) (T : reader_tables) (cm : mask) (attr : str) (ms ml : N) (attrs : list pattr) : ev :=
+Definition spec_code (p : pool) (T : reader_tables) (cm : mask) (attr : str) (ms ml : N) (xr : list row) (attrs : list pattr) : ev :=
   let st := spec_plains p (rt_code T) cm attrs l_init in
-  ECode attr ms ml (frame_sources st) (loop_events (rt_code T) st).
+  ECode attr ms ml (frame_sources st) xr (loop_events (rt_code T) st).
 
 Definition spec_rc (p : pool) (T : reader_tables) (v : visitor) (attr : str) (k : nat) (c : N * N * list pattr) : ev :=
   ERc attr k (fst (fst c)) (snd (fst c))
@@ -158,11 +158,11 @@ Definition spec_attr (p : pool) (T : reader_tables) (v : visitor) (ct : ctx_tabl
     (st : lstate) (a : attr) : lstate :=
   match a with
   | AtPlain pa => spec_plain p ct m st pa
-  | AtCode nidx _ ms ml _ _ _ attrs =>
+  | AtCode nidx _ ms ml _ nexc exc attrs =>
       match pool_utf8 p nidx with
       | Some name =>
           if keep (t_arms ct) m name
-          then l_emit st (match kc with Some cm => spec_code p T cm name ms ml attrs | None => ECodeDeclined name end)
+          then l_emit st (match kc with Some cm => spec_code p T cm name ms ml (exc_rows nexc exc) attrs | None => ECodeDeclined name end)
           else st
       | None => st
       end
